@@ -51,6 +51,7 @@ func (f *PathnameName) Call(s *slip.Scope, args slip.List, depth int) slip.Objec
 	if !ok {
 		slip.TypePanic(s, depth, "string", args[0], "string")
 	}
+	_, _ = slip.GetArgsKeyValue(args[1:], slip.Symbol(":case")) // ignored but must be well formed
 	base := filepath.Base(string(path))
 	if i := strings.LastIndexByte(base, '.'); 0 <= i {
 		base = base[:i]
